@@ -87,7 +87,9 @@ func domain(prop, name, desc, tier string, ks []kase, props map[string]bool) *dr
 		}}
 }
 
-func Main(prop string) {
+func Main(prop string) { MainWith(prop, nil) }
+
+func MainWith(prop string, extra []*drv.Domain) {
 	ck := &drv.Check{Property: prop, Level: "model_checking", Horizon: 3 * time.Hour}
 	own := map[string]bool{prop: true}
 	var qRealClosure, tRealClosure, qRealChain, tRealChain, qSymClosure, tSymClosure, qSymChain, tSymChain []kase
@@ -130,6 +132,7 @@ func Main(prop string) {
 	d("sym-closure-h10", "BFS closure, symbolic, complete alphabet, h=10", "t", tSymClosure)
 	d("sym-chain", "whole key life, symbolic, every even h 4..16: every index, lock-step walkers, boundary jumps", "", qSymChain)
 	d("sym-chain-h18-24", "whole key life, symbolic, h=18..24", "t", tSymChain)
+	ck.Domains = append(ck.Domains, extra...)
 	switch prop {
 	case "C01":
 		ck.Rule = "explicit-state exploration of the real key object: every Sign from every reachable state verifies (real hashes: xmss.Verify + byte equality with a full-tree reference; symbolic: authentication path == exact sibling identities in every state and every signature). non-trivial = a successful signature or a successful forward jump of more than one index"
